@@ -59,9 +59,14 @@ def _world():
 
         put = delete = patch = post
 
+    @web.stream_request_body
+    class SH(H):
+        def data_received(self, chunk):
+            pass
+
     apps = {}
     for v in (1, 2):
-        app, srv = make_app_server(env, [("/", H)], app=web.Application([("/", H)], xsrf_cookies=True, xsrf_cookie_version=v))
+        app, srv = make_app_server(env, app=web.Application([("/", H), ("/s", SH)], xsrf_cookies=True, xsrf_cookie_version=v))
         apps[v] = srv
     rnd = _Rand()
     clock = {"t": 0}
@@ -75,8 +80,8 @@ def _txt(cps):
     return "".join(chr(c) for c in cps)
 
 
-def build_request(method, cookie, token, carrier):
-    lines = ["%s / HTTP/1.1" % method, "Host: example.test"]
+def build_request(method, cookie, token, carrier, path="/"):
+    lines = ["%s %s HTTP/1.1" % (method, path), "Host: example.test"]
     if cookie:
         lines.append("Cookie: _xsrf=" + cookie)
     body = b""
@@ -93,7 +98,7 @@ def build_request(method, cookie, token, carrier):
     return ("\r\n".join(lines) + "\r\n\r\n").encode("latin1") + body
 
 
-def do_post(cookie, token, carrier, method, appver=2):
+def do_post(cookie, token, carrier, method, appver=2, handler="plain"):
     """Returns {"status", "ran"} of one real request."""
     w = _world()
     del w["ran"][:]
@@ -101,7 +106,7 @@ def do_post(cookie, token, carrier, method, appver=2):
     w["rnd"].mask = FRESH[:4]
     w["clock"]["t"] = 1700000000
     with LogCapture() as lc, W.WebPatch(os=w["os"], time=w["time"]):
-        code, headers, body, closed = W.http_exchange(w["env"], w["apps"][appver], build_request(method, cookie, token, carrier),
+        code, headers, body, closed = W.http_exchange(w["env"], w["apps"][appver], build_request(method, cookie, token, carrier, "/s" if handler == "stream" else "/"),
                                                       head=(method == "HEAD"))
     errs = [r for r in lc.records if r[1] in ("ERROR", "CRITICAL")]
     return {"status": code if code is not None else 0, "ran": bool(w["ran"]), "errors": len(errs)}
@@ -132,13 +137,13 @@ def replay_state(st, _path=None):
     if sc["mode"] == "post":
         token = _txt(sc["token"]["s"])
         appver = 1 + (len(cookie) + len(token)) % 2
-        obs = do_post(cookie, token, sc["carrier"], sc["method"], appver)
+        obs = do_post(cookie, token, sc["carrier"], sc["method"], appver, sc.get("handler", "plain"))
         if obs["status"] != exp["status"] or obs["ran"] != exp["ran"] or obs["errors"]:
             return {"step": 0, "act": "post", "args": {"cookie": cookie, "token": token, "carrier": sc["carrier"], "method": sc["method"]},
                     "exp": {"status": exp["status"], "ran": exp["ran"]}, "obs": obs,
                     "sig": {"what": "post-outcome", "exp_ran": exp["ran"], "obs_ran": obs["ran"], "obs_status": obs["status"],
                             "cookie_kind": sc["cookie"]["kind"], "token_kind": sc["token"]["kind"], "carrier": sc["carrier"],
-                            "method": sc["method"]}}
+                            "method": sc["method"], "handler": sc.get("handler", "plain")}}
         return None
     if sc["mode"] == "issue":
         v, m, t = sc["iss"]
@@ -225,7 +230,8 @@ def random_session(args):
         method = rng.choice(["POST"] * 6 + ["PUT", "DELETE", "PATCH", "GET", "HEAD", "OPTIONS"])
         if method in ("GET", "HEAD", "OPTIONS") and carrier == "form":
             carrier = "xsrfheader"
-        o = do_post(cookie, tok, carrier, method, outver)
-        ev.append({"a": "post", "args": [list(cookie.encode("latin1")), list(tok.encode("latin1")), carrier, method],
+        handler = "stream" if (carrier != "form" and method not in ("GET", "HEAD", "OPTIONS") and rng.random() < 0.3) else "plain"
+        o = do_post(cookie, tok, carrier, method, outver, handler)
+        ev.append({"a": "post", "args": [list(cookie.encode("latin1")), list(tok.encode("latin1")), carrier, method, handler],
                    "obs": {"status": o["status"], "ran": o["ran"]}})
     return {"id": tid, "cfg": {}, "ev": ev}
